@@ -492,7 +492,7 @@ fn words(alpha: &[L], max_len: usize) -> Vec<Vec<L>> {
 fn many_records(ctx: &Ctx, rep: &mut Report) {
     const M: usize = 40;
     let mut r = Rng::derive(ctx.seed, &[tag("c15-many")]);
-    let shapes: Vec<Shape> = (0..M).map(|i| gen::shape_exact(3, &mut r, &Cfg::plain(1, 2), 1, 2 + i % 5)).collect();
+    let shapes: Vec<Shape> = (0..M).map(|i| gen::shape_exact(3, &mut r, &Cfg::plain(1, 2), 1, 2 + (i * 3) % 5)).collect();
     let mut shp = Cursor::new(Vec::new());
     let mut shx = Cursor::new(Vec::new());
     let mut dbf = Cursor::new(Vec::new());
@@ -504,6 +504,31 @@ fn many_records(ctx: &Ctx, rep: &mut Report) {
     }
     let recs: Vec<D> = shapes.iter().map(|s| s.d().expected_after_roundtrip()).collect();
     let (shp, shx, dbf) = (shp.into_inner(), shx.into_inner(), dbf.into_inner());
+    // every ordered pair (a, b) of random accesses on ONE reader: the records differ in size and the
+    // last one is not the largest, so b is reached after a smaller and after a larger record
+    if ctx.want("c15:many:pairs") {
+        rep.eval();
+        let res = panicmon::catch(|| -> Result<(), String> {
+            let mut rd = ShapeReader::with_shx(Cursor::new(shp.clone()), Cursor::new(shx.clone())).map_err(|e| err_class(&e))?;
+            for a in 0..M {
+                for b in (0..M).rev() {
+                    for i in [a, b] {
+                        match rd.read_nth_shape(i) {
+                            Some(Ok(s)) if s.d() == recs[i] => {}
+                            other => return Err(format!("read_nth_shape({}) then read_nth_shape({}) on one reader: access to {} answered {}", a, b, i, match other { Some(Ok(s)) => format!("record {:?}", which(&s.d(), &recs)), Some(Err(e)) => err_class(&e), None => "None".to_string() })),
+                        }
+                    }
+                }
+            }
+            Ok(())
+        });
+        rep.count("ordered_pairs_of_random_accesses_on_one_reader", (M * M) as u64);
+        match res {
+            Ok(Ok(())) => {}
+            Ok(Err(what)) => rep.violation("many-records/random-access-pairs", "c15:many:pairs", J::obj(vec![("records", J::UInt(M as u64)), ("what", J::s(what))])),
+            Err(p) => rep.violation("many-records/panic", "c15:many:pairs", J::s(p.class())),
+        }
+    }
     for k in 0..=M + 2 {
         let case = format!("c15:many:seek{}", k);
         if !ctx.want(&case) {
